@@ -226,3 +226,116 @@ where
         self.io.lock().drop_stream(self.id);
     }
 }
+
+/// Verification hooks (only with `--cfg libp2p_verif`): thin access to the crate-private frame
+/// codec (to test the framing and to act as a raw frame injector) and a read-only view of a
+/// [`Multiplex`] endpoint's substream table.
+#[cfg(libp2p_verif)]
+pub mod verif {
+    use asynchronous_codec::{Decoder, Encoder};
+    use bytes::{Bytes, BytesMut};
+    use futures::{AsyncRead, AsyncWrite};
+    pub use libp2p_core::Endpoint;
+
+    use crate::codec;
+
+    pub const MAX_FRAME_SIZE: usize = codec::MAX_FRAME_SIZE;
+
+    #[derive(Debug, Clone, Copy, PartialEq, Eq)]
+    pub enum Kind {
+        Open,
+        Data,
+        Close,
+        Reset,
+    }
+
+    /// A frame with the stream id spelled out. For frames to encode, `(num, role)` is the
+    /// `LocalStreamId`; for decoded frames it is the `RemoteStreamId` as produced by the decoder.
+    #[derive(Debug, Clone, PartialEq, Eq)]
+    pub struct Frame {
+        pub kind: Kind,
+        pub num: u64,
+        pub role: Endpoint,
+        pub data: Bytes,
+    }
+
+    /// The crate's frame codec.
+    pub struct Codec(codec::Codec);
+
+    impl Default for Codec {
+        fn default() -> Self {
+            Self::new()
+        }
+    }
+
+    impl Codec {
+        pub fn new() -> Self {
+            Codec(codec::Codec::new())
+        }
+
+        pub fn encode(&mut self, f: Frame, dst: &mut BytesMut) -> std::io::Result<()> {
+            let stream_id = codec::LocalStreamId::verif_new(f.num, f.role);
+            let frame = match f.kind {
+                Kind::Open => codec::Frame::Open { stream_id },
+                Kind::Data => codec::Frame::Data {
+                    stream_id,
+                    data: f.data,
+                },
+                Kind::Close => codec::Frame::Close { stream_id },
+                Kind::Reset => codec::Frame::Reset { stream_id },
+            };
+            self.0.encode(frame, dst)
+        }
+
+        pub fn decode(&mut self, src: &mut BytesMut) -> std::io::Result<Option<Frame>> {
+            Ok(self.0.decode(src)?.map(|frame| {
+                let (num, role) = frame.remote_id().verif_parts();
+                let (kind, data) = match frame {
+                    codec::Frame::Open { .. } => (Kind::Open, Bytes::new()),
+                    codec::Frame::Data { data, .. } => (Kind::Data, data),
+                    codec::Frame::Close { .. } => (Kind::Close, Bytes::new()),
+                    codec::Frame::Reset { .. } => (Kind::Reset, Bytes::new()),
+                };
+                Frame {
+                    kind,
+                    num,
+                    role,
+                    data,
+                }
+            }))
+        }
+    }
+
+    #[derive(Debug, Clone, PartialEq, Eq)]
+    pub struct SubstreamInfo {
+        pub num: u64,
+        pub role: Endpoint,
+        pub state: &'static str,
+        pub buffered_frames: usize,
+    }
+
+    #[derive(Debug, Clone, PartialEq, Eq)]
+    pub struct Snapshot {
+        /// Every entry of the substream table (including inbound ones not yet handed out).
+        pub substreams: Vec<SubstreamInfo>,
+        pub open_buffer: usize,
+        pub pending_frames: usize,
+        pub blocking: Option<(u64, Endpoint)>,
+        pub status: &'static str,
+    }
+
+    pub fn snapshot<C>(m: &crate::Multiplex<C>) -> Snapshot
+    where
+        C: AsyncRead + AsyncWrite + Unpin,
+    {
+        m.io.lock().verif_snapshot()
+    }
+
+    /// The local id `(num, role)` of a substream.
+    pub fn substream_id<C>(s: &crate::Substream<C>) -> (u64, Endpoint)
+    where
+        C: AsyncRead + AsyncWrite + Unpin,
+    {
+        s.id.verif_parts()
+    }
+}
